@@ -17,6 +17,9 @@ PROP = dict(
         H(NS, "c11", "c11_reach", "reach register == explicit 8-poll history: unanswered_polls = min(8, polls since last answer), reachable iff an answer in the last 8 polls"),
         H(NS, "c11", "c11_timer", "unreachable and tries >= 3 => exactly [Reset] or [Demobilize] (by deny flag), nothing sent, state unchanged; else [Send, SetTimer], tries+1 (saturating), reach << 1 (v4 family)", timeout=600),
         H(NS, "c11", "c11_answer", "a usable answer is measured, sets reach bit 0 and clears the deny memory; nothing else touches reach/tries (48-byte packets)", timeout=600),
+        H(NS, "c09", "c09_rate", "(shared with C09) a valid RATE answer leaves the deny memory as it was", timeout=600),
+        H(NS, "c09", "c09_other", "(shared with C09) NTSN / unknown KISS answers leave the deny memory as it was", timeout=600),
+        H(NS, "c09", "c09_deny", "(shared with C09) after DENY/RSTR the next timer demobilises iff unreachable and tries >= 3", timeout=600),
         H(NS, "c11", "c11_observe", "observe().unanswered_polls = polls since the last usable answer (<= 8)"),
         H(NS, "c11", "c11_answer_v5", "c11_answer for NTPv5 answers", tier="thorough"),
     ],
